@@ -226,100 +226,11 @@ def audit(fn):
 # ---------------------------------------------------------------------------------------------
 # independent evaluator
 # ---------------------------------------------------------------------------------------------
-class DontCare(Exception):
-    pass
+from av.feval import DontCare, evaluate as _feval
 
 
 def ref_eval(node, env):
-    if isinstance(node, ast.Expression):
-        return ref_eval(node.body, env)
-    if isinstance(node, ast.Constant):
-        return float(node.value)
-    if isinstance(node, ast.Name):
-        if node.id == "pi":
-            return math.pi
-        return env[node.id]
-    if isinstance(node, ast.UnaryOp):
-        v = ref_eval(node.operand, env)
-        return -v if isinstance(node.op, ast.USub) else +v
-    if isinstance(node, ast.BinOp):
-        a = ref_eval(node.left, env)
-        b = ref_eval(node.right, env)
-        with np.errstate(all="ignore"):
-            if isinstance(node.op, ast.Add):
-                return a + b
-            if isinstance(node.op, ast.Sub):
-                return a - b
-            if isinstance(node.op, ast.Mult):
-                return a * b
-            if isinstance(node.op, ast.Div):
-                return _div(a, b)
-            if isinstance(node.op, ast.Pow):
-                a_, b_ = np.broadcast_arrays(np.asarray(a, dtype=float), np.asarray(b, dtype=float))
-                if np.any((a_ < 0) & (b_ != np.floor(b_))) or np.any((a_ == 0) & (b_ < 0)):
-                    raise DontCare()
-                return np.power(a, b)
-            if isinstance(node.op, ast.FloorDiv):
-                if np.any(np.asarray(b) == 0):
-                    raise DontCare()
-                return np.floor_divide(a, b)
-            if isinstance(node.op, ast.Mod):
-                if np.any(np.asarray(b) == 0):
-                    raise DontCare()
-                return np.mod(a, b)
-        raise DontCare()
-    if isinstance(node, ast.Compare):
-        if len(node.ops) != 1:
-            raise DontCare()
-        a = ref_eval(node.left, env)
-        b = ref_eval(node.comparators[0], env)
-        op = node.ops[0]
-        f = {ast.Lt: np.less, ast.LtE: np.less_equal, ast.Gt: np.greater, ast.GtE: np.greater_equal, ast.Eq: np.equal, ast.NotEq: np.not_equal}[type(op)]
-        return f(a, b) * 1.0
-    if isinstance(node, ast.Call):
-        name = node.func.id
-        args = [ref_eval(a, env) for a in node.args]
-        with np.errstate(all="ignore"):
-            if name == "max":
-                out = args[0]
-                for a in args[1:]:
-                    out = np.where(np.asarray(a) > np.asarray(out), a, out)
-                return out
-            if name == "min":
-                out = args[0]
-                for a in args[1:]:
-                    out = np.where(np.asarray(a) < np.asarray(out), a, out)
-                return out
-            if name == "exp":
-                return np.exp(args[0])
-            if name == "sqrt":
-                if np.any(np.asarray(args[0]) < 0):
-                    raise DontCare()
-                return np.sqrt(args[0])
-            if name == "floor":
-                return np.floor(args[0])
-            if name == "cos":
-                return np.cos(args[0])
-            if name == "sin":
-                return np.sin(args[0])
-            if name == "ln":
-                if np.any(np.asarray(args[0]) <= 0):
-                    raise DontCare()
-                return np.log(args[0])
-            if name == "sdiv":
-                return _div(args[0], args[1])
-        raise DontCare()
-    raise DontCare()
-
-
-def _div(a, b):
-    a_, b_ = np.broadcast_arrays(np.asarray(a, dtype=float), np.asarray(b, dtype=float))
-    if np.any((b_ == 0) & (a_ != 0)):
-        raise DontCare()  # x/0 with x != 0 is not defined by the property
-    out = np.zeros(a_.shape)
-    nz = a_ != 0
-    out[nz] = a_[nz] / b_[nz]
-    return out if out.shape else float(out)
+    return _feval(node, env, strict=True)
 
 
 def gen_expr(rng, names, depth):
